@@ -13,7 +13,8 @@ from .common import sym_mesh
 
 META = dict(
     bounds=dict(
-        quick=dict(mesh_n="(2,1,1), (2,3,2), (1,2,3)", nvdim="1..4", labels="default / custom / short labels (r, m, n, o ...)", subregions="none / two",
+        quick=dict(also="concrete far-offset geometries (offset/cell up to 1e13) through the binary and XML writers",
+                   mesh_n="(2,1,1), (2,3,2), (1,2,3)", nvdim="1..4", labels="default / custom / short labels (r, m, n, o ...)", subregions="none / two",
                    representations="bin, xml (symbolic through the recorder grid); txt natively", validity="symbolic bit per cell"),
         thorough=dict(mesh_n="as quick plus (3,2,2), (2,2,4)", nvdim="1..4", labels="as quick", subregions="as quick", representations="as quick", validity="symbolic"),
     ),
